@@ -43,6 +43,7 @@ import (
 	"strings"
 	"sync"
 	"sync/atomic"
+	"syscall"
 	"time"
 
 	"github.com/fabiolb/fabio/config"
@@ -73,9 +74,14 @@ const (
 )
 
 type srvSpec struct {
-	Kind  string `json:"kind"`            // http tcp sni dyn grpc comp
+	Kind  string `json:"kind"`            // http tcp sni dyn grpc comp blk dial
 	Items []int  `json:"items"`           // remaining durations in ms, -1 = never ends (comp: SNI tunnels)
 	Https []int  `json:"https,omitempty"` // comp only: requests on the TLS-terminating child
+	// blk, dial only: connections whose handler goroutine stays blocked for that many ms in a
+	// phase that closing the client connection does not interrupt.  blk = a tcp.Handler that
+	// simply blocks, passed to proxy.ListenAndServeTCP; dial = the real tcp.Proxy with a 5 s
+	// DialTimeout inside net.DialTimeout to an upstream that does not answer its SYNs.
+	Stuck []int `json:"stuck,omitempty"`
 }
 
 type scenario struct {
@@ -98,6 +104,7 @@ type result struct {
 	Items     [][][]obs `json:"items"` // server, leaf, item
 	Left      int       `json:"registry_left"`
 	Err       string    `json:"err,omitempty"`
+	Skip      string    `json:"skip,omitempty"` // the scenario cannot be built on this machine
 }
 
 // ---------------------------------------------------------------- child
@@ -185,6 +192,33 @@ func tcpBackend(w *world) net.Listener {
 	return ln
 }
 
+// blackhole returns the address of a loopback TCP endpoint on which connect() hangs: a
+// listening socket with backlog 0 that never accepts and whose accept queue is full, so the
+// kernel drops further SYNs (Linux).  ok=false when that cannot be built here.
+func blackhole() (addr string, ok bool) {
+	fd, err := syscall.Socket(syscall.AF_INET, syscall.SOCK_STREAM, 0)
+	if err != nil {
+		return "", false
+	}
+	if err := syscall.Bind(fd, &syscall.SockaddrInet4{Port: 0, Addr: [4]byte{127, 0, 0, 1}}); err != nil {
+		return "", false
+	}
+	if err := syscall.Listen(fd, 0); err != nil {
+		return "", false
+	}
+	lsa, err := syscall.Getsockname(fd)
+	if err != nil {
+		return "", false
+	}
+	addr = "127.0.0.1:" + strconv.Itoa(lsa.(*syscall.SockaddrInet4).Port)
+	for i := 0; i < 16; i++ {
+		if _, err := net.DialTimeout("tcp", addr, 300*time.Millisecond); err != nil {
+			return addr, true // the filling connections and fd stay open until the process exits
+		}
+	}
+	return "", false
+}
+
 func freeAddr() string {
 	ln, err := net.Listen("tcp", "127.0.0.1:0")
 	if err != nil {
@@ -231,6 +265,7 @@ type item struct {
 	si, li, ii int
 	d          int
 	run        func(d string) bool // performs the request; true = completed normally
+	stuck      bool
 }
 
 func runChild(sc scenario) (res result) {
@@ -265,8 +300,20 @@ func runChild(sc scenario) (res result) {
 	fmt.Fprintf(&tbl, "route add web web.test/ %s\n", httpB.URL)
 	fmt.Fprintf(&tbl, "route add rpc rpc.test/ grpc://%s opts \"proto=grpc\"\n", grpcLn.Addr())
 	fmt.Fprintf(&tbl, "route add sni tunnel.test/ tcp://%s opts \"proto=tcp\"\n", tcpB.Addr())
+	hole := ""
 	for i, s := range sc.Servers {
 		addrs[i] = freeAddr()
+		if s.Kind == "dial" {
+			if hole == "" {
+				var ok bool
+				if hole, ok = blackhole(); !ok {
+					res.Skip = "cannot build a non-answering upstream (full accept backlog) on this kernel"
+					return
+				}
+			}
+			_, port, _ := net.SplitHostPort(addrs[i])
+			fmt.Fprintf(&tbl, "route add hole%d :%s tcp://%s\n", i, port, hole)
+		}
 		if s.Kind == "tcp" || s.Kind == "dyn" {
 			_, port, _ := net.SplitHostPort(addrs[i])
 			fmt.Fprintf(&tbl, "route add tun%d :%s tcp://%s\n", i, port, tcpB.Addr())
@@ -300,6 +347,34 @@ func runChild(sc scenario) (res result) {
 		case "tcp":
 			go func() {
 				if err := proxy.ListenAndServeTCP(l, &tcp.Proxy{Lookup: lookupHost}, nil); err != nil {
+					serveErr <- err.Error()
+				}
+			}()
+		case "dial":
+			go func() {
+				if err := proxy.ListenAndServeTCP(l, &tcp.Proxy{DialTimeout: 5 * time.Second, Lookup: lookupHost}, nil); err != nil {
+					serveErr <- err.Error()
+				}
+			}()
+		case "blk":
+			h := tcp.HandlerFunc(func(in net.Conn) error {
+				// learns its duration from the first line, then no longer touches the connection
+				var buf []byte
+				tmp := make([]byte, 256)
+				for {
+					n, err := in.Read(tmp)
+					buf = append(buf, tmp[:n]...)
+					if m := durRe.FindSubmatch(buf); m != nil {
+						w.work(string(m[1]))
+						return nil
+					}
+					if err != nil {
+						return nil
+					}
+				}
+			})
+			go func() {
+				if err := proxy.ListenAndServeTCP(l, h, nil); err != nil {
 					serveErr <- err.Error()
 				}
 			}()
@@ -447,6 +522,32 @@ func runChild(sc scenario) (res result) {
 		}
 	}
 
+	// a connection whose handler gets stuck: the client only ever sees it closed (false);
+	// for the warm-up ("w") the handler returns at once and the close is the success
+	stuckClient := func(addr string, marker bool) func(string) bool {
+		return func(d string) bool {
+			c, err := net.DialTimeout("tcp", addr, 2*time.Second)
+			if err != nil {
+				return false
+			}
+			defer c.Close()
+			if marker {
+				c.Write([]byte("@@DUR=" + d + "@@\n"))
+			} else {
+				c.Write([]byte("hello\n"))
+				go func() { // no backend ever sees this one: it counts as arrived once the handler is dialing
+					time.Sleep(150 * time.Millisecond)
+					atomic.AddInt32(&w.arrived, 1)
+				}()
+			}
+			if d == "w" {
+				c.SetReadDeadline(time.Now().Add(2 * time.Second))
+			}
+			b, err := io.ReadAll(c)
+			return d == "w" && err == nil && len(b) == 0
+		}
+	}
+
 	var items []item
 	res.Items = make([][][]obs, len(sc.Servers))
 	var warm []func(string) bool
@@ -464,14 +565,27 @@ func runChild(sc scenario) (res result) {
 			fs, ds = []func(string) bool{stream(addrs[i])}, [][]int{s.Items}
 		case "comp": // children in ServeLater order: tcp.Server, then http.Server
 			fs, ds = []func(string) bool{tunnel(addrs[i], true), httpReq("https", addrs[i])}, [][]int{s.Items, s.Https}
+		case "blk":
+			fs, ds = []func(string) bool{nil}, [][]int{nil}
+			warm = append(warm, stuckClient(addrs[i], true))
+		case "dial": // no warm-up possible: every connection gets stuck in the dial
+			fs, ds = []func(string) bool{nil}, [][]int{nil}
 		}
 		res.Items[i] = make([][]obs, len(fs))
 		for li := range fs {
-			warm = append(warm, fs[li])
+			if fs[li] != nil {
+				warm = append(warm, fs[li])
+			}
 			res.Items[i][li] = make([]obs, len(ds[li]))
 			for ii, d := range ds[li] {
 				res.Items[i][li][ii] = obs{K: "open"}
-				items = append(items, item{i, li, ii, d, fs[li]})
+				items = append(items, item{i, li, ii, d, fs[li], false})
+			}
+		}
+		if s.Kind == "blk" || s.Kind == "dial" { // observations of the stuck connections follow the items
+			for _, b := range s.Stuck {
+				res.Items[i][0] = append(res.Items[i][0], obs{K: "open"})
+				items = append(items, item{i, 0, len(res.Items[i][0]) - 1, b, stuckClient(addrs[i], s.Kind == "blk"), true})
 			}
 		}
 	}
@@ -562,6 +676,9 @@ func runChild(sc scenario) (res result) {
 	maxFin := 0
 	nFin := 0
 	for _, it := range items {
+		if it.stuck {
+			continue // its client is cut at the deadline at the latest
+		}
 		if it.d >= 0 {
 			nFin++
 			if it.d > maxFin {
@@ -650,6 +767,12 @@ func coqServer(s srvSpec) string {
 		return "(Single " + coqLeaf("KTcp", s.Items) + ")"
 	case "grpc":
 		return "(Single " + coqLeaf("KGrpc", s.Items) + ")"
+	case "blk", "dial":
+		xs := make([]string, len(s.Stuck))
+		for i, d := range s.Stuck {
+			xs[i] = coqDur(d)
+		}
+		return "(Single (LS [] " + vh.List(xs) + "))"
 	case "comp":
 		return "(Composite [" + coqLeaf("KTcp", s.Items) + "; " + coqLeaf("KHttp", s.Https) + "])"
 	}
@@ -729,11 +852,14 @@ func main() {
 			{Kind: "grpc", Items: []int{short(), short()}}, {Kind: "comp", Items: []int{short()}, Https: []int{short()}}}},
 		{Name: "mixed-http-grpc", Class: "mixed", Servers: []srvSpec{
 			{Kind: "http", Items: []int{short(), long()}}, {Kind: "http", Items: []int{short()}}, {Kind: "grpc", Items: []int{short()}}, {Kind: "dyn", Items: []int{long()}}}},
+		{Name: "tcp-stuck-handler", Class: "tcp-stuck-handler", Servers: []srvSpec{
+			{Kind: "blk", Stuck: []int{short(), 10 * wait}}, {Kind: "tcp", Items: []int{short(), never}}}},
+		{Name: "tcp-stuck-dialing", Class: "tcp-stuck-handler", Servers: []srvSpec{{Kind: "dial", Stuck: []int{5000}}}},
 		{Name: "idle-http", Class: "idle", Servers: []srvSpec{{Kind: "http"}}},
 		{Name: "idle-all", Class: "idle", Servers: []srvSpec{{Kind: "http"}, {Kind: "tcp"}, {Kind: "grpc"}, {Kind: "comp"}}},
 	}
 	if run.Thorough() {
-		kinds := []string{"http", "tcp", "sni", "dyn", "grpc", "comp"}
+		kinds := []string{"http", "tcp", "sni", "dyn", "grpc", "comp", "blk"}
 		for i := 0; i < 24; i++ {
 			n := 1 + r.Intn(4)
 			sc := scenario{Name: fmt.Sprintf("random-%d", i), Class: "random"}
@@ -756,6 +882,14 @@ func main() {
 					return ds
 				}
 				s.Items = gen()
+				if s.Kind == "blk" { // stuck handlers instead of tunnels; a never-returning one would only cost time
+					s.Stuck, s.Items = s.Items, nil
+					for k, b := range s.Stuck {
+						if b < 0 {
+							s.Stuck[k] = 10 * wait
+						}
+					}
+				}
 				if s.Kind == "comp" {
 					s.Https = gen()
 				}
@@ -781,7 +915,7 @@ func main() {
 			defer func() { <-sem }()
 			for try := 0; try < 3; try++ {
 				results[i], errs[i] = runScenario(scs[i])
-				if errs[i] == nil && results[i].Err == "" {
+				if errs[i] == nil && (results[i].Err == "" || results[i].Skip != "") {
 					return
 				}
 			}
@@ -791,6 +925,10 @@ func main() {
 
 	for i, sc := range scs {
 		res := results[i]
+		if errs[i] == nil && res.Skip != "" {
+			run.Exclude(res.Skip)
+			continue
+		}
 		if errs[i] != nil || res.Err != "" {
 			msg := res.Err
 			if errs[i] != nil {
